@@ -416,6 +416,7 @@ impl Scenario for C17Multi {
     let mut twice = 0u64;
     let mut seen_closed = false;
     let mut appended_since_closed = false;
+    let mut reopened: Option<Violation> = None;
     let mut late_appends = 0u64;
     let mut violation: Option<Violation> = None;
     let mut trace = String::new();
@@ -550,10 +551,16 @@ impl Scenario for C17Multi {
           if unsubscribed && !c && violation.is_none() {
             violation = Some(Violation { rule: "c17.clone-open-after-unsubscribe".into(), site: site.clone(), detail: format!("`{}`: a remaining handle reports open after unsubscribe()", trace.trim()) });
           }
-          // an append between the two answers legitimately re-opens a composite
-          // that had not been unsubscribed
           if seen_closed && !c && !appended_since_closed && violation.is_none() {
             violation = Some(Violation { rule: "c17.closed-then-open".into(), site: site.clone(), detail: format!("`{}`: is_closed() went from true back to false", trace.trim()) });
+          }
+          // "once it has returned true it never again returns false" has no
+          // exception for an append in between: a composite that was never
+          // unsubscribed and is empty (or holds finished members only) answers
+          // true, accepts another member and answers false. Judged last, so
+          // that it does not hide any other rule of the same history.
+          if seen_closed && !c && appended_since_closed && reopened.is_none() {
+            reopened = Some(Violation { rule: "c17.closed-then-open".into(), site: format!("{} [re-opened by append]", site), detail: format!("`{}`: is_closed() answered true while the composite was empty or held finished members only, a member was appended, is_closed() answers false", trace.trim()) });
           }
           if c {
             // closed => no member can still act
@@ -592,6 +599,9 @@ impl Scenario for C17Multi {
     drop(hl);
     drop(hs);
     drop(w);
+    if violation.is_none() {
+      violation = reopened;
+    }
     Ok(Outcome {
       violation,
       trace_hash: hash_str(&trace),
